@@ -197,6 +197,12 @@ func (m *Machine) Explore(fn *ssa.Function) *Result {
 			res.Panics[firstLine(toString(o.v))]++
 			m.recordCrash(toString(o.v))
 		case runtime.Error:
+			if strings.Contains(o.Error(), "interp.") {
+				// a failed assertion on the engine's own value types: a gap of the engine, not a fault of the
+				// code under test
+				res.Unsupported["engine: "+firstLine(o.Error())]++
+				break
+			}
 			res.Panics[firstLine(o.Error())]++
 			m.recordCrash(o.Error())
 		case string:
